@@ -326,3 +326,168 @@ class Program:
             f = seen[f]
             out.append(f)
         return list(reversed(out))
+
+
+# ------------------------------------------------------------------ small semantic helpers
+
+_FLIP = {"<": ">", "<=": ">=", ">": "<", ">=": "<=", "==": "==", "!=": "!="}
+_NEG = {"<": ">=", "<=": ">", ">": "<=", ">=": "<", "==": "!=", "!=": "=="}
+
+
+def unparen(n):
+    while n is not None and n.get("k") == "block" and not n.get("stmts") and "tail" in n:
+        n = n["tail"]
+    return n
+
+
+def cmp_norm(n, negate=False):
+    """normalise a comparison to (lhs_place, op, rhs_place); None if n is not a comparison.
+    `!(a < b)` becomes a >= b; operands are rendered with place_str."""
+    n = unparen(n)
+    if n is None:
+        return None
+    if n.get("k") == "un" and n.get("op") == "!":
+        return cmp_norm(n["e"], not negate)
+    if n.get("k") == "bin" and n.get("op") in _FLIP:
+        op = n["op"]
+        if negate:
+            op = _NEG[op]
+        return (place_str(n["l"]), op, place_str(n["r"]))
+    # method forms a.lt(b) etc.
+    if n.get("k") == "mcall" and n.get("name") in ("lt", "le", "gt", "ge", "eq", "ne") and n.get("a"):
+        op = {"lt": "<", "le": "<=", "gt": ">", "ge": ">=", "eq": "==", "ne": "!="}[n["name"]]
+        if negate:
+            op = _NEG[op]
+        return (place_str(n["recv"]), op, place_str(n["a"][0]))
+    return None
+
+
+def cmp_holds_as(c, lhs, ops, rhs):
+    """does the normalised comparison c state `lhs OP rhs` for some OP in ops (either orientation)?"""
+    if c is None:
+        return False
+    a, op, b = c
+    if a == lhs and b == rhs and op in ops:
+        return True
+    if a == rhs and b == lhs and _FLIP[op] in ops:
+        return True
+    return False
+
+
+PANIC_FNS = ("core::panicking::", "std::rt::begin_panic", "core::option::expect_failed", "core::result::unwrap_failed",
+             "std::process::exit", "std::process::abort")
+
+
+def diverges(n):
+    """does evaluating n never complete normally (panic / return / break / continue)?"""
+    n = unparen(n)
+    if n is None:
+        return False
+    k = n.get("k")
+    if k in ("ret", "break", "continue"):
+        return True
+    if n.get("t") == "!":
+        return True
+    if k == "semi":
+        return diverges(n["e"])
+    if k == "block":
+        for st in n.get("stmts", ()):
+            if diverges(st):
+                return True
+        return "tail" in n and diverges(n["tail"])
+    if k == "call":
+        return (n.get("q") or "").startswith(PANIC_FNS)
+    if k == "if":
+        return "else" in n and diverges(n["then"]) and diverges(n["else"])
+    if k == "match":
+        return bool(n["arms"]) and all(diverges(a["body"]) for a in n["arms"])
+    return False
+
+
+def const_eval(n, env):
+    """evaluate an integer expression tree with locals from env (name or hid -> int); None if not evaluable"""
+    n = unparen(strip(n)) if n is not None else None
+    if n is None:
+        return None
+    k = n.get("k")
+    if k == "lit" and n.get("lk") == "int":
+        return n["v"]
+    if k == "path" and n.get("r") == "local":
+        return env.get(n["hid"], env.get(n["name"]))
+    if k == "cast":
+        return const_eval(n["e"], env)
+    if k == "bin":
+        a, b = const_eval(n["l"], env), const_eval(n["r"], env)
+        if a is None or b is None:
+            return None
+        return _arith(n["op"], a, b)
+    if k == "mcall":
+        nm = n.get("name")
+        place = place_str(n)
+        if place in env:
+            return env[place]
+        if nm in ("div", "add", "sub", "mul", "rem", "shr", "shl", "saturating_sub", "wrapping_sub", "min", "max") and n.get("a"):
+            a, b = const_eval(n["recv"], env), const_eval(n["a"][0], env)
+            if a is None or b is None:
+                return None
+            op = {"div": "/", "add": "+", "sub": "-", "mul": "*", "rem": "%", "shr": ">>", "shl": "<<", "wrapping_sub": "-"}.get(nm)
+            if op:
+                return _arith(op, a, b)
+            if nm == "saturating_sub":
+                return max(a - b, 0)
+            if nm == "min":
+                return min(a, b)
+            if nm == "max":
+                return max(a, b)
+        return None
+    if k == "field" or k == "index":
+        return env.get(place_str(n))
+    return None
+
+
+def _arith(op, a, b):
+    try:
+        if op == "+":
+            return a + b
+        if op == "-":
+            return a - b
+        if op == "*":
+            return a * b
+        if op == "/":
+            return a // b
+        if op == "%":
+            return a % b
+        if op == ">>":
+            return a >> b
+        if op == "<<":
+            return a << b
+    except (ZeroDivisionError, ValueError):
+        return None
+    return None
+
+
+def stmts_of(block):
+    """top-level statements of a block, tail included as the last"""
+    out = list(block.get("stmts", ()))
+    if "tail" in block:
+        out.append(block["tail"])
+    return out
+
+
+def contains(n, pred):
+    return any(pred(x) for x in walk_nodes(n))
+
+
+def fn_block(body):
+    """the user-visible top-level block of a fn body; looks through the async_trait wrapper
+    (Box::pin(async move { ...; let __ret: T = { USER BLOCK }; __ret }))"""
+    b = body["body"]
+    for n in walk_nodes(b):
+        if n.get("k") == "let" and n.get("pat", {}).get("name") == "__ret" and "init" in n and n["init"].get("k") == "block":
+            return n["init"]
+    # plain async fn: body is a closure (coroutine) wrapping the block
+    if b.get("k") == "block" and not b.get("stmts") and b.get("tail", {}).get("k") == "closure":
+        inner = b["tail"]["body"]
+        # async fn desugaring: block { let params..; tail: user block } — take innermost meaningful block
+        return inner
+    return b
